@@ -830,6 +830,26 @@ func (env *SpecEnv) call(x ECall) SpecVal {
 		}
 		heap, ms := g.so.mapHeapFor(mt)
 		return SpecVal{fmt.Sprintf("(and (not (= %s 0)) (select (%s.dom (select %s %s)) %s))", v.T, ms, env.heapT(env.cur, heap), v.T, k.T), "Bool", nil}
+	case "sameheap":
+		// sameheap("T"): the heap holding objects / slice elements / maps of Go type T is unchanged since the old state
+		ts, ok := x.Args[0].(EStr)
+		if !ok || env.old == nil {
+			env.fail("sameheap(\"type\") needs an old state")
+		}
+		_, gt := env.resolveSort(ts.V)
+		if gt == nil {
+			env.fail("sameheap: unknown type %s", ts.V)
+		}
+		var heap string
+		switch u := gt.Underlying().(type) {
+		case *types.Slice:
+			heap = g.so.sliceHeapFor(u.Elem())
+		case *types.Map:
+			heap, _ = g.so.mapHeapFor(u)
+		default:
+			heap = g.so.heapFor(gt)
+		}
+		return SpecVal{fmt.Sprintf("(= %s %s)", env.heapT(env.cur, heap), env.heapT(env.old, heap)), "Bool", nil}
 	case "wasallocated":
 		// wasallocated(e): e (evaluated now) denotes an object that already existed in the old state
 		if env.old == nil {
